@@ -42,6 +42,11 @@ def main():
     # make sure the change is applied
     sh("git checkout -- src", wt)
     rc, out = sh("git apply patch.diff", wt); meta["ran"].append("git checkout -- src; git apply patch.diff -> %d" % rc)
+    # demos sometimes write into the worktree path they were authored in; make sure that directory exists
+    made = []
+    for m in set(re.findall(r'"(/tmp/w[t0-9]-C\d+)/', open(os.path.join(wt, "demo.cpp")).read())):
+        if not os.path.exists(m):
+            os.makedirs(m); made.append(m)
     ok, out = build(wt); meta["builds_with_change"] = ok
     n, failed, out = tests(wt); meta["tests_passed_with_change"] = n; meta["tests_failed_with_change"] = failed
     meta["ran"].append("with change: cmake --build; ./_build/tests/tests -> %d passed%s" % (n, ", FAILURES" if failed else ""))
@@ -74,6 +79,8 @@ def main():
     print(json.dumps({k: meta[k] for k in ("seed_id", "property", "confirmed", "tests_passed_with_change", "demo_exit_with_change", "demo_exit_without_change", "detected_by")}, indent=1))
     for c, v in verdicts.items(): print(c, v["exit"], v["keys"][:3], v["last"][:160])
     shutil.rmtree(os.path.join(VERIF, "replays"), ignore_errors=True)
+    for m in made:
+        shutil.rmtree(m, ignore_errors=True)
 
 if __name__ == "__main__":
     main()
